@@ -173,8 +173,31 @@ def check_window(ctx):
                 ctx.ob("C15.2", site, False, "window starts at the first %s > current - length%s" % (coord[:-1], "*3600" if pos == 0 else ""), loc=loc,
                        msg="window start is %s, expected first index with %s > %s[t] - length%s" % (str(first)[:200], coord, coord, "*3600" if pos == 0 else ""))
             else:
-                raise AnalysisError("%s: window start %s not of the recognised form where(%s > start)[0][0]" % (site, str(first)[:160], coord))
+                lag = _pointer_advanced_by_if(prog.func(site))
+                if lag is not None:
+                    ctx.ob("C15.2", site, False, "window starts at the first %s > current - length" % coord[:-1], loc=prog.loc(m, lag),
+                           msg="the window start is a pointer that is advanced by at most one element per step (`if`, not `while`): when "
+                               "more than one %s leaves the window at once (irregular grid) values older than l-h stay in the window" % coord[:-1])
+                else:
+                    raise AnalysisError("%s: window start %s not of the recognised form where(%s > start)[0][0]" % (site, str(first)[:160], coord))
     ctx.floor("C15.2", 12)
+
+
+def _pointer_advanced_by_if(f):
+    """A loop-carried window start `p` with `if ...: p += 1` (single step) inside the loop body."""
+    for loop in ast.walk(f):
+        if not isinstance(loop, ast.For):
+            continue
+        for st in loop.body:
+            if isinstance(st, ast.If):
+                for inner in st.body:
+                    if isinstance(inner, ast.AugAssign) and isinstance(inner.op, ast.Add) and isinstance(inner.target, ast.Name):
+                        name = inner.target.id
+                        used = any(isinstance(c, ast.Call) and dotted(c.func) == "range" and c.args and dotted(c.args[0]) == name
+                                   for c in ast.walk(loop))
+                        if used:
+                            return inner
+    return None
 
 
 def check_dispatch(ctx):
